@@ -64,6 +64,9 @@ func (v CVal) String() string {
 	case CNil:
 		return "nil"
 	case CType:
+		if v.T == nil {
+			return "dyn(?)"
+		}
 		return "dyn(" + TypeShort(v.T) + ")"
 	case CSym:
 		return "sym(" + v.S + ")"
@@ -116,7 +119,7 @@ func (a CVal) eq(b CVal) bool {
 	case CConst:
 		return a.C.Kind() == b.C.Kind() && constant.Compare(a.C, token.EQL, b.C)
 	case CType:
-		return types.Identical(a.T, b.T)
+		return a.T != nil && b.T != nil && types.Identical(a.T, b.T)
 	case CSym:
 		return a.S == b.S
 	case CPtr:
@@ -163,6 +166,9 @@ func meet(a, b CVal) CVal {
 		return CVal{K: CStruct, Tup: out}
 	case a.eq(b):
 		return a
+	case a.K == CType && b.K == CType:
+		// two non-nil interface values of different (or unknown) dynamic type: non-nil, type unknown
+		return CVal{K: CType}
 	}
 	return Top
 }
@@ -620,6 +626,25 @@ func (e *ConstEval) Run(fn *ssa.Function, args []CVal) *CEResult {
 			res.Ret = meet(res.Ret, rv)
 		}
 	}
+	if errLast && !anySuccess && res.Ret.K == CTuple && len(res.Ret.Tup) == nres && len(res.Rets) > 0 {
+		// every return that is reached hands back an error known to be non-nil (a constructed error value, or one
+		// behind `err != nil`): the caller's `if err != nil` is decided
+		allFail := true
+		for _, ret := range res.Rets {
+			if len(ret.Results) != nres {
+				allFail = false
+				continue
+			}
+			if ev := res.Of(ret.Results[nres-1]); !(ev.K == CType || knownNonNilAt(ret.Results[nres-1], ret.Block())) {
+				allFail = false
+			}
+		}
+		if allFail {
+			out := append([]CVal{}, res.Ret.Tup...)
+			out[nres-1] = CVal{K: CType}
+			res.Ret = TupleV(out...)
+		}
+	}
 	if len(failed) > 0 && res.Ret.K == CTuple && len(res.Ret.Tup) == nres {
 		out := append([]CVal{}, res.Ret.Tup...)
 		for _, ev := range failed {
@@ -795,6 +820,9 @@ func (e *ConstEval) transfer(fn *ssa.Function, res *CEResult, v ssa.Value) CVal 
 		case CNil:
 			okv = ConstV(constant.MakeBool(false))
 		case CType:
+			if a.T == nil {
+				break // non-nil, dynamic type unknown
+			}
 			var holds bool
 			if it, isI := x.AssertedType.Underlying().(*types.Interface); isI {
 				holds = types.Implements(a.T, it)
@@ -898,7 +926,7 @@ func (e *ConstEval) call(fn *ssa.Function, res *CEResult, c *ssa.Call, args []CV
 	var free []CVal
 	if c.Call.IsInvoke() {
 		// receiver with a known dynamic type
-		if args[0].K == CType && fn.Prog != nil {
+		if args[0].K == CType && args[0].T != nil && fn.Prog != nil {
 			callee = fn.Prog.LookupMethod(args[0].T, c.Call.Method.Pkg(), c.Call.Method.Name())
 			if callee != nil {
 				args = append([]CVal{Top}, args[1:]...) // contents of the receiver are unknown
@@ -969,7 +997,7 @@ func foldBin(x *ssa.BinOp, a, b CVal) CVal {
 		}
 		// two non-nil interface values: different dynamic types are unequal; identical zero-size dynamic types
 		// (struct{} such as binary.bigEndian) have a single value and are equal
-		if a.K == CType && b.K == CType {
+		if a.K == CType && b.K == CType && a.T != nil && b.T != nil {
 			if !types.Identical(a.T, b.T) {
 				return ConstV(constant.MakeBool(x.Op == token.NEQ))
 			}
